@@ -32,7 +32,16 @@ type item struct {
 }
 
 //go:noinline
-func (w *world) healthyWait() { <-w.release }
+func (w *world) healthyWait(ctx context.Context) {
+	if w.spec.AtStop {
+		select {
+		case <-w.release:
+		case <-ctx.Done():
+		}
+		return
+	}
+	<-w.release
+}
 
 // barrier lets two panicking items panic at the same moment.
 type barrier struct {
@@ -63,11 +72,14 @@ func (it *item) body(ctx context.Context) error {
 		if n == 1 {
 			doubleBarrier.arrive()
 		}
+		if it.w.spec.AtStop {
+			<-ctx.Done()
+		}
 		it.w.log.Rec("panic", it.name, it.kind, map[string]any{"value": it.val.class})
 		it.val.raiseVerifPanic()
 	}
 	if it.block {
-		it.w.healthyWait()
+		it.w.healthyWait(ctx)
 	}
 	if err := ctx.Err(); err != nil {
 		it.ctxErr.Store(err.Error())
@@ -136,6 +148,11 @@ func (ww *workWorld) launch(it *item) {
 			it.task = m.NewTask(it.name, it.taskFn)
 		}
 		it.task.Schedule(time.Now().Add(10 * time.Millisecond))
+	case "task-repeat":
+		if it.task == nil {
+			it.task = m.NewTask(it.name, it.taskFn).Repeat(time.Minute)
+		}
+		it.task.StartASAP()
 	case "mt-run-high":
 		go func() { it.addRet(m.RunHighPriorityMicroTask(it.name, it.body)) }()
 	case "mt-run-med":
@@ -269,6 +286,11 @@ func runWorkChild(sp caseSpec, dir string) {
 		doubleBarrier = &barrier{need: 2, ch: make(chan struct{})}
 	}
 
+	if sp.AtStop {
+		ww.runAtStop(pitems, healthy)
+		return
+	}
+
 	for occ := 1; occ <= sp.Repeat; occ++ {
 		for _, it := range pitems {
 			if occ > it.panics {
@@ -294,9 +316,14 @@ func runWorkChild(sp caseSpec, dir string) {
 	}
 
 	// accounting once every panicking item is through
+	// (with two items panicking at once the accounting is judged for the pair)
+	accKind, accValue := sp.Kind, sp.Value
+	if sp.SecondKind != "" {
+		accKind, accValue = "two-at-once", "any"
+	}
 	last, ok := w.settle(s1)
 	w.keepSnap("s2_after_panics", last)
-	w.decideSettle(sp.Kind, sp.Value, "after the panicking item(s) finished", s1, last, ok)
+	w.decideSettle(accKind, accValue, "after the panicking item(s) finished", s1, last, ok)
 
 	// --- healthy items started after the panic
 	var after []*item
@@ -346,9 +373,9 @@ func runWorkChild(sp caseSpec, dir string) {
 	}
 	last, ok = w.settle(s0)
 	w.keepSnap("s3_quiescent", last)
-	w.decideSettle(sp.Kind, sp.Value, "at quiescence (all work ended)", s0, last, ok)
+	w.decideSettle(accKind, accValue, "at quiescence (all work ended)", s0, last, ok)
 
-	w.shutdownAndCheck(sp.Kind, sp.Value, false)
+	w.shutdownAndCheck(accKind, accValue, false)
 	w.finish()
 }
 
@@ -398,9 +425,26 @@ func (ww *workWorld) observeOccurrence(it *item, occ int, prev snap) {
 		if !ok {
 			return
 		}
-		executing, canceled, _, _, _ := it.task.VerifTaskState()
+		// the executing flag is reset after the counter is decremented
+		var executing, canceled bool
+		reset := waitFor(waitSettle, func() bool {
+			executing, canceled, _, _, _ = it.task.VerifTaskState()
+			return !executing
+		})
+		if !reset {
+			if n, g := inflight(); n > 0 {
+				w.undecided("task-stuck", it.kind, v.class, "the task is still marked executing; its goroutine is still in the run path: "+trunc(g, 300))
+				return
+			}
+		}
 		w.check("task-stuck", it.kind, v.class, !executing && !canceled,
-			fmt.Sprintf("after the panicking execution the task is left executing=%v canceled=%v", executing, canceled), nil)
+			fmt.Sprintf("after the panicking execution the task is left executing=%v canceled=%v and no goroutine is inside its run path", executing, canceled), nil)
+		if it.kind == "task-repeat" && reset {
+			// a repeating task is put back into the schedule by the same clean-up
+			_, _, _, _, scheduled := it.task.VerifTaskState()
+			w.check("task-not-rerun", it.kind, v.class, scheduled,
+				"the repeating task is not in the schedule any more after its execution panicked", nil)
+		}
 	}
 }
 
@@ -458,4 +502,52 @@ func (ww *workWorld) observeRerun(it *item, prev snap) {
 		w.note("the healthy re-run of %s did not end", it.kind)
 	}
 	_ = prev
+}
+
+// runAtStop: the panicking item(s) and the healthy items are inside their functions
+// when Shutdown is called; the panic happens once the module's context is cancelled.
+func (ww *workWorld) runAtStop(pitems, healthy []*item) {
+	w := ww.world
+	sp := w.spec
+	for _, it := range pitems {
+		it.panics = 1
+		ww.launch(it)
+	}
+	for _, it := range pitems {
+		if !waitFor(waitRerun, func() bool { return it.entered.Load() >= 1 }) {
+			w.harnessProblem("the item that is to panic at the stop did not begin")
+		}
+	}
+	w.count("panics_at_stop", int64(len(pitems)))
+	accKind, accValue := sp.Kind, sp.Value
+	if sp.SecondKind != "" {
+		accKind, accValue = "two-at-once", "any"
+	}
+	w.shutdownAndCheck(accKind, accValue, false)
+	for _, it := range pitems {
+		v := it.val
+		w.count("panics_raised", 1)
+		var retME *modules.ModuleError
+		if isBlockingKind(it.kind) {
+			if waitFor(waitSettle, func() bool { _, ok := it.ret(0); return ok }) {
+				err, _ := it.ret(0)
+				retME = w.checkReturned(it.kind, v, err)
+			} else if n, g := inflight(); n > 0 {
+				w.undecided("not-returned", it.kind, v.class, "the blocking run variant has not returned yet: "+trunc(g, 300))
+			} else {
+				w.check("not-returned", it.kind, v.class, false, "the blocking run variant never returned and its goroutine is gone", nil)
+			}
+		}
+		w.checkReported(it.kind, v, ww.subject.Name, it.taskNameOK(ww), retME)
+	}
+	zero := snap{}
+	last, ok := w.settle(zero)
+	w.keepSnap("s3_after_shutdown", last)
+	w.decideSettle(accKind, accValue, "after Shutdown returned", zero, last, ok)
+	for _, it := range healthy {
+		if it.entered.Load() >= 1 && it.ended.Load() < it.entered.Load() {
+			w.note("healthy item %s did not end at the stop", it.name)
+		}
+	}
+	w.finish()
 }
